@@ -534,6 +534,12 @@ template<class T> constexpr T spice(T*t) {return *t;}
 
 #define rBOILS_BEGIN rBOIL_BEGIN \
             const char *mm = msg; \
+            /* the index stands where the port's name has its '#' */ \
+            /* (the name itself may contain digits) */ \
+            if(data.port && strchr(data.port->name, '#') && \
+               !strncmp(msg, data.port->name, \
+                        strchr(data.port->name, '#') - data.port->name)) \
+                mm += strchr(data.port->name, '#') - data.port->name; \
             while(*mm && !isdigit(*mm)) ++mm; \
             unsigned idx = atoi(mm);
 
